@@ -190,6 +190,73 @@ def _fold_value_returns(body, ret):
     return out
 
 
+def _fold_tail_returns(body, ret):
+    """Every ``return V`` in tail position (last statement of the body, of
+    both arms of a final ``if``, of the body / handlers of a final ``try``
+    without ``finally``, of a final ``with``) becomes ``ret = V``: nothing
+    can run after it anyway.  None when a return sits anywhere else."""
+    def has_ret(nodes):
+        return any(isinstance(x, ast.Return) for n_ in nodes
+                   for x in ast.walk(n_))
+
+    def tail(stmts):
+        if not stmts:
+            return []
+        if has_ret(stmts[:-1]):
+            return None
+        last = stmts[-1]
+        head = list(stmts[:-1])
+        if isinstance(last, ast.Return):
+            a = ast.Assign(targets=[ast.Name(id=ret, ctx=ast.Store())],
+                           value=last.value if last.value is not None
+                           else ast.Constant(None))
+            return head + [ast.copy_location(a, last)]
+        if not has_ret([last]):
+            return head + [last]
+        if isinstance(last, ast.If):
+            a, b = tail(last.body), tail(last.orelse)
+            if a is None or b is None:
+                return None
+            new = ast.If(test=last.test, body=a, orelse=b)
+        elif isinstance(last, (ast.With, ast.AsyncWith)):
+            a = tail(last.body)
+            if a is None:
+                return None
+            new = type(last)(items=last.items, body=a, type_comment=None)
+        elif isinstance(last, ast.Try):
+            if last.finalbody and has_ret(last.finalbody):
+                return None
+            if last.orelse:
+                if has_ret(last.body):
+                    return None
+                b_, o_ = list(last.body), tail(last.orelse)
+            else:
+                b_, o_ = tail(last.body), []
+            if b_ is None or o_ is None:
+                return None
+            hs = []
+            for h in last.handlers:
+                hb = tail(h.body)
+                if hb is None:
+                    return None
+                hs.append(ast.ExceptHandler(type=h.type, name=h.name,
+                                            body=hb))
+            new = ast.Try(body=b_, handlers=hs, orelse=o_,
+                          finalbody=last.finalbody)
+        else:
+            return None
+        return head + [ast.copy_location(new, last)]
+
+    res = tail(list(body))
+    if res is None:
+        return None
+    res = [ast.Assign(targets=[ast.Name(id=ret, ctx=ast.Store())],
+                      value=ast.Constant(None))] + res
+    for x in res:
+        ast.fix_missing_locations(x)
+    return res
+
+
 def _fold_returns_with_flag(body, ret, done):
     """Last resort for returns nested in ``with`` / ``if`` blocks (not in
     loops or try): ``return V`` becomes ``ret = V; done = True`` and
@@ -288,6 +355,7 @@ class Helper:
                 self.defaults[arg.arg] = d
         self.vararg = a.vararg.arg if a.vararg is not None else None
         self.is_method = owner[0] == "class"
+        self.static = False
         from .astutil import live
         self.body = _fold_early_returns(live(_strip_doc(node.body), node))
         self.expr = None       # expression helpers
@@ -309,6 +377,11 @@ class Helper:
             name = ast.unparse(d.func if isinstance(d, ast.Call) else d)
             if name.rsplit(".", 1)[-1] in ("lru_cache", "cache"):
                 self.cached = True
+            elif name == "staticmethod" and self.is_method:
+                # called as self.helper(...) without a self parameter: an
+                # ordinary function that lives in the class
+                self.is_method = False
+                self.static = True
             else:
                 decos.append(d)
         if decos or a.kwarg or isinstance(n, ast.AsyncFunctionDef):
@@ -363,6 +436,11 @@ class Helper:
                                            ctx=ast.Load()))
             return True
         if self.expr is None:
+            folded = _fold_tail_returns(body, f"__ret_{n.name}")
+            if folded is not None:
+                self.stmts = (folded, ast.Name(id=f"__ret_{n.name}",
+                                               ctx=ast.Load()))
+                return True
             folded = _fold_returns_with_flag(
                 body, f"__ret_{n.name}", f"__done_{n.name}")
             if folded is not None:
